@@ -50,6 +50,10 @@ def run(mod, pid, tier, seed, args, t0):
     if rc == 0:
         obligations, discharged, details, probs = vlib.check_props(pid)
     proof_problems += probs
+    chk = None
+    if rc == 0 and tier == "thorough" and not args.replay:
+        chk, cprobs = vlib.coqchk_props(pid)
+        proof_problems += cprobs
     # ---- 2. implementation + model builds (from /repo's current working tree)
     if rc == 0:
         vlib.build_model()
@@ -95,6 +99,7 @@ def run(mod, pid, tier, seed, args, t0):
         "checker_cmd": "make -C coq (coq_makefile, full .vo) && coqc -Q coq SLT coq/Props/%s.v  [Print Assumptions per theorem]; python3 tools/vcheck.py %s --tier %s" % (pid, pid, tier),
         "trusted_base": vlib.TRUSTED_BASE + getattr(mod, "TRUSTED_EXTRA", []),
         "proof_problems": proof_problems,
+        "coqchk": chk if chk is not None else "not run in this tier (thorough only)",
         "known_findings_hit": sorted(set(known_lines)),
     })
     vlib.write_evidence(pid, tier, seed, cov, getattr(mod, "ASSUMPTIONS", []), time.time() - t0, len(violations))
